@@ -140,6 +140,18 @@ TIES = [Tie("orphanage_ops", "tie/drivers/orphan_drv.cpp", "Extract_Orphanage.v"
             predicate="driver", nontrivial=lambda c: c.count("add ") >= 3,
             classify=lambda c: "G<=%s" % ("14" if int(c.split(" ", 1)[0]) <= 14 else "big"), shrink=shrink)]
 
-LEVEL_TEXT = ("placeholder")
-LEVEL_NOTE = ("placeholder")
+LEVEL_TEXT = ("Coq theorems, by induction over ALL operation sequences of an executable transcription of TxOrphanageImpl: in every "
+              "reachable state every SanityCheck clause holds (per-peer usage/count/latency, unique-orphan counters, the outpoint "
+              "index without dangling or missing entries, the reconsiderable set) and the pool is within both global limits; "
+              "LimitOrphans never hits a failed Assume (key lemma: over the global limit implies a peer with DoS score > 1), "
+              "terminates, evicts only announcements of peers whose DoS score exceeded 1 when it started and nothing when the "
+              "pool is within limits; EraseTx / EraseForPeer / EraseForBlock remove exactly the affected announcements (block: "
+              "exactly the orphans spending a spent outpoint); reconsideration changes flags only. Model tied to the real "
+              "TxOrphanage by differential execution of operation scripts on real transactions; constants from the compiled tree.")
+LEVEL_NOTE = ("Premises kept in the statements: transactions identified by wtxid; every input >= 164 weight units; 0 < "
+              "max_global_latency_score <= 10^6, 0 < reserved_peer_usage <= INT32_MAX; at most max_global_latency_score announcing "
+              "peers (with more, MaxPeerLatencyScore() is 0 and GetDosScore's assert fails in the real code - confirmed with "
+              "MakeTxOrphanage(4, 1000) and 5 peers; unreachable with the default 3000). The random choice of AddChildrenToWorkSet "
+              "is an input of the model; the driver picks rng seeds whose draws follow the model's rule. Trusted: Coq kernel; "
+              "dump_params; extraction and the OCaml/C++ driver glue; hand transcription checked by correspondence.")
 TECHNIQUE = "Coq proof (induction over all operation sequences of an executable transcription) + differential correspondence against the real TxOrphanage"
